@@ -146,6 +146,10 @@ def generate(rng, tier, index):
         for j in range(2):
             blob = bytes([65 + j]) * size
             ops.append({"op": "write", "desc": "L0", "values": [j, {"$b": blob.hex()}], "w": 0})
+    if mode == "faultfree" and rng.random() < 0.08:
+        # one record of more than a MiB (a file carried as one bytes field)
+        pool["L1"] = ["big/file", [["varint", "n"], ["bytes", "data"]]]
+        ops.insert(rng.randrange(len(ops) + 1), {"op": "write", "desc": "L1", "values": [7, {"$b": (b"\x5a" * rng.choice([(1 << 20) + 100, 3 << 20])).hex()}], "w": 0})
     if rng.random() < 0.85 or mode == "faultfree":
         if rng.random() < 0.5:
             ops.append({"op": "flush"})
